@@ -65,6 +65,10 @@ class Feed:
         # aircraft first (and only) heard through DF18 (TIS-B / ADS-R): they count like any other
         specs.append({'kind': 'df18ident', 'icao': 'c00300', 'callsign': 'TISB', 'cf': 2})
         specs.append({'kind': 'df18ident', 'icao': 'c00301', 'callsign': 'ADSR', 'cf': 6})
+        # an aircraft at exactly 0 ft (Gillham code 0x20a: "0", not blank) and one whose reports carry no altitude
+        for odd in (0, 1):
+            specs.append({'kind': 'pos', 'icao': 'c00310', 'lat': LAT0 - 0.15, 'lon': LON0 + 0.5, 'ac12': 0x20a, 'odd': odd})
+            specs.append({'kind': 'pos', 'icao': 'c00311', 'lat': LAT0 - 0.25, 'lon': LON0 + 0.5, 'ac12': 0, 'odd': odd})
         # aircraft whose distance rounds differently at the third decimal when narrowed to f32 first (found by a
         # deterministic search through the real tracker library): the Distance cell must show the f64 value
         self.f32_sensitive = []
@@ -161,6 +165,12 @@ def compile_script(fd, kind, cfg, seq, delivery, alphabet, filler=True, touchscr
         steps.append({'op': 'lines', 'hex': hexs(b''.join(sl)), 'n': len(sl)})
         expect = expect_of(st)
         labels = ['SM%d' % i for i in range(int(kind[5:]))]
+    elif kind == 'mixed':
+        # aircraft and location markers at the same coordinates: in every view a marker and the aircraft over it coincide
+        argv += ['--locations'] + fd.locations
+        steps.append({'op': 'lines', 'hex': hexs(fd.bytes), 'n': len(fd.lines)})
+        expect = expect_of(fd.table)
+        labels = ORDER + [n.lower() for n in ORDER] + ['rx']
     elif kind == 'locations':
         argv += ['--locations'] + fd.locations
         steps.append({'op': 'sync', 'n': 2})
@@ -397,6 +407,25 @@ def judge(script, obs):
                     probs.append('map0:vacuous-row-distance(S1-N1=%d)' % inner)
                 if abs(outer - 2 * inner) > 3:
                     probs.append('map0:row-ratio(S1-N1=%d,S2-N2=%d)' % (inner, outer))
+    # 3b. mixed feeds: marker and aircraft at the same place are drawn at the same place, in the initial and in the moved view
+    if kind == 'mixed':
+        for tag in ('map0', 'map1'):
+            sn = snaps.get(tag)
+            if not sn:
+                continue
+            mpx = e4screen.parse_map(sn['lines'], script['labels'])
+            if mpx is None:
+                continue
+            posx = {n: p for n, p in mpx['labels'].items() if not isinstance(p[0], str)}
+            both = [n for n in ORDER if n in posx and n.lower() in posx]
+            facts['coincident_' + tag] = len(both)
+            for n in both:
+                (ca, ra), (cl, rl) = posx[n], posx[n.lower()]
+                # the aircraft label is printed 20 plot units above the aircraft: same column, 0-3 rows higher
+                if abs(ca - cl) > 1 or not (-1 <= rl - ra <= 3):
+                    probs.append('%s:marker-and-aircraft-apart(%s:%s vs %s:%s)' % (tag, n, (ca, ra), n.lower(), (cl, rl)))
+            if tag == 'map0' and len(both) < 6:
+                probs.append('map0:vacuous-coincidence(%d pairs visible)' % len(both))
     # 4. view controls change only the view
     if kind != 'expiry':
         m1 = snaps.get('map1')
@@ -505,6 +534,11 @@ def enumerate_scripts(tier, fd, fd_mer=None):
         out.append(compile_script(fd, 'expiry', cfg, (), 'separated', VIEW))
         out.append(compile_script(fd, 'expiry-silent', cfg, (), 'separated', VIEW))
     parts['controls without pacing filler (depth<=1) + expiry variant (Total != Most)'] = len(out) - n0
+    n0 = len(out)
+    mixed_seqs = [(), ('Up',), ('Left',), ('Down', 'Right'), ('-',), ('+',), ('Drag',), ('Up', 'Up', 'Left'), ('Scroll',)]
+    for seq in mixed_seqs:
+        out.append(compile_script(fd, 'mixed', cfgs[0], seq, 'separated', VIEW))
+    parts['aircraft and location markers at the same coordinates x %d view sequences' % len(mixed_seqs)] = len(out) - n0
     n0 = len(out)
     for nsm in (1, 2, 3):
         for seq in [(), ('-',), ('Up',)]:
